@@ -57,7 +57,7 @@ def main():
     rnd = random.Random(args["seed"] * 104729 + 20)
     leg = base.Leg(
         "c20-listing-gauges-e2e", "C20",
-        "real erbium in private namespaces; DISCOVER/REQUEST exchanges over a veth pair whose host-name and client-identifier options "
+        "real erbium in private namespaces; DISCOVER/REQUEST exchanges over a veth pair whose host-name and client-identifier options (and, for half of the clients, one to three further options such as client FQDN, vendor/user class, relay information with empty, too-short, long and arbitrary values; a quarter without any host-name option) "
         "carry every byte value (quotes, backslashes, controls, NUL, invalid UTF-8, lengths 0..255); after each batch GET "
         "/api/v1/leases.json must parse as JSON and equal the rows read directly from the SQLite file (address, client id, start, "
         "expiry, one entry per row); /metrics gauges compared with counts from the same rows and the clock, on the empty store, with "
@@ -131,6 +131,15 @@ def main():
             elif i % 3 == 2:
                 cid = names[(i * 7) % len(names)][:200] or b"\x00"
             opts = [(12, nm), (55, bytes([1, 3, 6, 12, 15]))]
+            if i % 4 == 3:
+                # no host-name option at all, but other options a listing might want to show (client FQDN, vendor class, user
+                # class, relay agent information, ...) with too-short, empty, long and arbitrary contents
+                opts = [(55, bytes([1, 3, 6, 12, 15]))]
+            if i % 2 == 1:
+                for code in rnd.sample([81, 60, 77, 82, 43, 124, 125, 15, 93, 97, 116, 224], rnd.randint(1, 3)):
+                    val = rnd.choice([b"", b"\x01", b"\x01\x01", b"\x00\x00\x00", bytes(rnd.randrange(256) for _ in range(rnd.choice([3, 4, 9, 60, 255]))),
+                                      b"\x05\x00\x00\x04host\x07example\x00", b'"\\\x00\xff'])
+                    opts.append((code, val))
             if cid is not None:
                 opts.append((61, cid))
             xid += 1
